@@ -1361,7 +1361,16 @@ def run(tier='quick', replay=None):
                 continue
             violations.append({'key': k, 'what': 'model and real code differ (%s side)' % d.get('side'), 'case': c, 'point': d.get('point'),
                                'lcapy': d.get('lcapy'), 'found_input': False, 'correspondence': 'Gen.NumFuncsGen / Gen.NumSimGen vs lcapy'})
-        return core.finish(res, violations)
+        # keep the report readable when one change breaks everything: all recorded findings + the first 25 others
+        kept, nnew = [], 0
+        for v in violations:
+            if v.get('key') in known_open:
+                kept.append(v)
+            elif nnew < 25:
+                kept.append(v)
+                nnew += 1
+        res.extra['violations_not_listed'] = len(violations) - len(kept)
+        return core.finish(res, kept)
     finally:
         if not os.environ.get('VERIF_KEEP'):
             w.cleanup()
